@@ -212,3 +212,193 @@ Theorem C20_src_printEscaped_spec_tight :
   (exists extra : list (list N), m' = m ++ extra) /\ mem_ok m'.
 Proof. exact src_printEscaped_spec_tight. Qed.
 Print Assumptions C20_src_printEscaped_spec_tight.
+
+(* --------------------------------------------------------------------------------------------------------------
+   THE TRANSLATED SOURCE of the five service-message writers of TeamCityTestOutput and of TestFailure::isOutsideTestFile / isInHelperFunction (gen/Gen_HeapC20.v, regenerated by tools/cxx2heap.py on every run) writes exactly the messages of the model's tc_step
+   -------------------------------------------------------------------------------------------------------------- *)
+From CppUVerif Require Import lib.CSem lib.CMem lib.CHeap gen.Gen_HeapC20 C20_MsgTie.
+Local Open Scope Z_scope.
+Theorem C20_teamcity_layout_is_the_source :
+  off_UtestShell_group_ = Z0 /\
+  off_UtestShell_name_ = Zpos 1 /\
+  cells_UtestShell = Zpos 7 /\
+  off_TestResult_currentTestTotalExecutionTime_ = Zpos 10 /\
+  cells_TestResult = Zpos 13 /\
+  off_TestFailure_testName_ = Z0 /\
+  off_TestFailure_testNameOnly_ = Zpos 1 /\
+  off_TestFailure_fileName_ = Zpos 2 /\
+  off_TestFailure_lineNumber_ = Zpos 3 /\
+  off_TestFailure_testFileName_ = Zpos 4 /\
+  off_TestFailure_testLineNumber_ = Zpos 5 /\
+  off_TestFailure_message_ = Zpos 6 /\
+  cells_TestFailure = Zpos 7 /\
+  off_TeamCityTestOutput_currtest_ = Z0 /\
+  off_TeamCityTestOutput_currGroup_ = Zpos 1 /\
+  off_TeamCityTestOutput_groupOpen_ = Zpos 2 /\ cells_TeamCityTestOutput = Zpos 3.
+Proof. exact teamcity_layout_is_the_source. Qed.
+Print Assumptions C20_teamcity_layout_is_the_source.
+
+Theorem C20_failure_isOutsideTestFile_spec :
+  forall (txt : Z -> bytes) (fuel : nat) (h : heap) (evs : list tev) (wr : list Z) (fb : nat)
+  (t : test) (file : bytes) (line : N) (msg : bytes),
+  fail_rep txt h fb t file line msg ->
+  src_failure_isOutsideTestFile fuel h evs wr (HPtr fb Z0) =
+  FOk (b2z (negb (bytes_eqb (t_file t) file)), h, evs, wr).
+Proof. exact failure_isOutsideTestFile_spec. Qed.
+Print Assumptions C20_failure_isOutsideTestFile_spec.
+
+Theorem C20_failure_isInHelperFunction_spec :
+  forall (txt : Z -> bytes) (fuel : nat) (h : heap) (evs : list tev) (wr : list Z) (fb : nat)
+  (t : test) (file : bytes) (line : N) (msg : bytes),
+  fail_rep txt h fb t file line msg ->
+  src_failure_isInHelperFunction fuel h evs wr (HPtr fb Z0) = FOk (b2z (line <? t_line t), h, evs, wr).
+Proof. exact failure_isInHelperFunction_spec. Qed.
+Print Assumptions C20_failure_isInHelperFunction_spec.
+
+Theorem C20_teamcity_printCurrentGroupStarted_spec :
+  forall (txt : Z -> bytes) (dur : N) (fuel : nat) (h : heap) (evs : list tev) (wr : list Z)
+  (ob sb : nat) (st : tcst) (t : test),
+  out_rep txt h ob st ->
+  shell_rep txt h sb t ->
+  exists (h' : heap) (new : list tev),
+  src_teamcity_printCurrentGroupStarted fuel h evs wr (HPtr ob Z0) (HPtr sb Z0) = FOk (tt, h', evs ++ new, wr) /\
+  render txt new = flat_map item_print (snd (tc_step Esc true dur st (EGroupStart t))) /\
+  out_rep txt h' ob (fst (tc_step Esc true dur st (EGroupStart t))) /\ only_block ob h h'.
+Proof. exact teamcity_printCurrentGroupStarted_spec. Qed.
+Print Assumptions C20_teamcity_printCurrentGroupStarted_spec.
+
+Theorem C20_teamcity_printCurrentGroupEnded_spec :
+  forall (txt : Z -> bytes) (dur : N) (fuel : nat) (h : heap) (evs : list tev) (wr : list Z)
+  (ob : nat) (st : tcst),
+  out_rep txt h ob st ->
+  exists (h' : heap) (new : list tev),
+  src_teamcity_printCurrentGroupEnded fuel h evs wr (HPtr ob Z0) = FOk (tt, h', evs ++ new, wr) /\
+  render txt new = flat_map item_print (snd (tc_step Esc true dur st EGroupEnd)) /\
+  out_rep txt h' ob (fst (tc_step Esc true dur st EGroupEnd)) /\ only_block ob h h'.
+Proof. exact teamcity_printCurrentGroupEnded_spec. Qed.
+Print Assumptions C20_teamcity_printCurrentGroupEnded_spec.
+
+Theorem C20_teamcity_printCurrentTestStarted_spec :
+  forall (txt : Z -> bytes) (dur : N) (fuel : nat) (h : heap) (evs : list tev) (rest : list Z)
+  (ob sb : nat) (st : tcst) (t : test),
+  out_rep txt h ob st ->
+  shell_rep txt h sb t ->
+  exists (h' : heap) (new : list tev),
+  src_teamcity_printCurrentTestStarted fuel h evs (b2z (negb (t_ignored t)) :: rest) (HPtr ob Z0) (HPtr sb Z0) =
+  FOk (tt, h', evs ++ new, rest) /\
+  render txt new = flat_map item_print (snd (tc_step Esc true dur st (ETestStart t))) /\
+  out_rep txt h' ob (fst (tc_step Esc true dur st (ETestStart t))) /\ only_block ob h h'.
+Proof. exact teamcity_printCurrentTestStarted_spec. Qed.
+Print Assumptions C20_teamcity_printCurrentTestStarted_spec.
+
+Theorem C20_teamcity_printCurrentTestEnded_spec :
+  forall (txt : Z -> bytes) (dur : N) (fuel : nat) (h : heap) (evs : list tev) (wr : list Z)
+  (ob rb : nat) (st : tcst) (d checks : N),
+  out_rep txt h ob st ->
+  result_rep h rb d ->
+  time_ok dur st d ->
+  exists new : list tev,
+  src_teamcity_printCurrentTestEnded fuel h evs wr (HPtr ob Z0) (HPtr rb Z0) = FOk (tt, h, evs ++ new, wr) /\
+  render txt new = flat_map item_print (snd (tc_step Esc true dur st (ETestEnd checks))) /\
+  fst (tc_step Esc true dur st (ETestEnd checks)) = st.
+Proof. exact teamcity_printCurrentTestEnded_spec. Qed.
+Print Assumptions C20_teamcity_printCurrentTestEnded_spec.
+
+Theorem C20_teamcity_printFailure_spec :
+  forall (txt : Z -> bytes) (dur : N) (fuel : nat) (h : heap) (evs : list tev) (wr : list Z)
+  (ob fb : nat) (st : tcst) (t : test) (file : bytes) (line : N) (msg : bytes),
+  fail_rep txt h fb t file line msg ->
+  exists new : list tev,
+  src_teamcity_printFailure fuel h evs wr (HPtr ob Z0) (HPtr fb Z0) = FOk (tt, h, evs ++ new, wr) /\
+  render txt new = flat_map item_print (snd (tc_step Esc true dur st (EFailure t file line msg))) /\
+  fst (tc_step Esc true dur st (EFailure t file line msg)) = st.
+Proof. exact teamcity_printFailure_spec. Qed.
+Print Assumptions C20_teamcity_printFailure_spec.
+
+Theorem C20_step_sim :
+  forall (txt : Z -> bytes) (dur : N) (fuel : nat) (h : heap) (evs : list tev) (rest : list Z)
+  (ob : nat) (st : tcst) (e : ev) (c : call),
+  out_rep txt h ob st ->
+  arg_ok txt dur h st e c ->
+  exists (h' : heap) (new : list tev),
+  run_call fuel h evs (wr_of [e] ++ rest) ob c = FOk (tt, h', evs ++ new, rest) /\
+  render txt new = flat_map item_print (snd (tc_step Esc true dur st e)) /\
+  out_rep txt h' ob (fst (tc_step Esc true dur st e)) /\ only_block ob h h'.
+Proof. exact step_sim. Qed.
+Print Assumptions C20_step_sim.
+
+Theorem C20_teamcity_run_sim :
+  forall (txt : Z -> bytes) (dur : N) (es : list ev) (sc : script) (fuel ob : nat) (st : tcst)
+  (h : heap) (evs : list tev) (rest : list Z),
+  out_rep txt h ob st ->
+  script_ok txt dur fuel ob st h evs (wr_of es ++ rest) es sc ->
+  exists (h' : heap) (new : list tev),
+  run_script fuel ob h evs (wr_of es ++ rest) sc = FOk (h', evs ++ new, rest) /\
+  render txt new = flat_map item_print (tc_items Esc true dur st es) /\ out_rep txt h' ob (tc_final dur st es).
+Proof. exact teamcity_run_sim. Qed.
+Print Assumptions C20_teamcity_run_sim.
+
+Theorem C20_teamcity_run_from_init :
+  forall (txt : Z -> bytes) (dur : N) (es : list ev) (sc : script) (fuel ob : nat) (h : heap)
+  (g0 : Z) (evs : list tev) (rest : list Z),
+  hblock h ob = [VPtr HNull; VInt g0; VInt Z0] ->
+  txt g0 = [] ->
+  script_ok txt dur fuel ob tc_init h evs (wr_of es ++ rest) es sc ->
+  exists (h' : heap) (new : list tev),
+  run_script fuel ob h evs (wr_of es ++ rest) sc = FOk (h', evs ++ new, rest) /\
+  render txt new = flat_map item_print (tc_items Esc true dur tc_init es) /\
+  out_rep txt h' ob (tc_final dur tc_init es).
+Proof. exact teamcity_run_from_init. Qed.
+Print Assumptions C20_teamcity_run_from_init.
+
+Theorem C20_teamcity_run_render_tc :
+  forall (txt : Z -> bytes) (dur : N) (ri : bool) (passes : nat) (fs : list bytes) (ts : list test)
+  (sc : script) (fuel ob : nat) (h : heap) (g0 : Z) (evs : list tev) (rest : list Z),
+  hblock h ob = [VPtr HNull; VInt g0; VInt Z0] ->
+  txt g0 = [] ->
+  script_ok txt dur fuel ob tc_init h evs (wr_of (passes_events ri fs passes ts) ++ rest)
+  (passes_events ri fs passes ts) sc ->
+  exists (h' : heap) (new : list tev),
+  run_script fuel ob h evs (wr_of (passes_events ri fs passes ts) ++ rest) sc = FOk (h', evs ++ new, rest) /\
+  render txt new = render_tc dur ri passes fs ts.
+Proof. exact teamcity_run_render_tc. Qed.
+Print Assumptions C20_teamcity_run_render_tc.
+
+Theorem C20_ex_ids_not_canonical_differs :
+  ex_txt (Zpos 12) = ex_txt (Zpos 13) /\
+  (exists new : list tev,
+  src_teamcity_printFailure 0 ex_heap_ids [] [] (HPtr 0 Z0) (HPtr 3 Z0) = FOk (tt, ex_heap_ids, new, []) /\
+  render ex_txt new <>
+  flat_map item_print
+  (snd
+  (tc_step Esc true 3 tc_init
+  (EFailure ex_t2
+  (B
+  (String.String (Ascii.Ascii false false true false true true true false)
+  (String.String (Ascii.Ascii true false true false false true true false)
+  (String.String (Ascii.Ascii true true false false true true true false)
+  (String.String (Ascii.Ascii false false true false true true true false)
+  (String.String (Ascii.Ascii false true true true false true false false)
+  (String.String (Ascii.Ascii true true false false false true true false)
+  (String.String (Ascii.Ascii false false false false true true true false)
+  (String.String
+  (Ascii.Ascii false false false false true true true false)
+  String.EmptyString))))))))) 9
+  (B
+  (String.String (Ascii.Ascii true false true true false true true false)
+  (String.String (Ascii.Ascii true true false false true true true false)
+  (String.String (Ascii.Ascii true true true false false true true false)
+  (String.String (Ascii.Ascii true true false true true false true false)
+  (String.String (Ascii.Ascii true false false false true true false false)
+  (String.String (Ascii.Ascii true false true true true false true false)
+  String.EmptyString))))))))))).
+Proof. exact ex_ids_not_canonical_differs. Qed.
+Print Assumptions C20_ex_ids_not_canonical_differs.
+
+Theorem C20_ex_run_sim :
+  exists (h' : heap) (new : list tev),
+  run_script 0 0 ex_heap [] (wr_of ex_es ++ []) ex_sc = FOk (h', [] ++ new, []) /\
+  render ex_txt new = flat_map item_print (tc_items Esc true 3 tc_init ex_es) /\
+  out_rep ex_txt h' 0 (tc_final 3 tc_init ex_es).
+Proof. exact ex_run_sim. Qed.
+Print Assumptions C20_ex_run_sim.
